@@ -303,6 +303,63 @@ func vRuleQueries(e *vEnv, docs []vDoc) []vBase {
 	return qs
 }
 
+// vHistoryQueries: inputs whose answers a cache keyed too coarsely, or a shortcut
+// taken too early, would mix up.  (1) a document exactly as it is in the corpus, for
+// every group of documents that normalise to the same text under different names
+// (all twins must be reported, every time); (2) revisions of one text with the same
+// number of words at the same place: the document, then the document with a few
+// words exchanged.  Together with the differing walk orders of the processes a
+// result remembered from an earlier call shows as a difference between processes.
+func vHistoryQueries(e *vEnv, docs []vDoc, norm func([]byte) string) []vBase {
+	r := rand.New(rand.NewSource(e.seed*104729 + 44))
+	var qs []vBase
+	groups := map[string][]int{}
+	var keys []string
+	for i, d := range docs {
+		if len(d.raw) > 20000 {
+			continue
+		}
+		n := norm(d.raw)
+		if len(groups[n]) == 0 {
+			keys = append(keys, n)
+		}
+		groups[n] = append(groups[n], i)
+	}
+	ng := 0
+	for _, k := range keys {
+		g := groups[k]
+		if len(g) < 2 || ng >= e.pick(25, 400) {
+			continue
+		}
+		ng++
+		for _, di := range g {
+			qs = append(qs, vBase{"exact-twin:" + docs[di].key, string(docs[di].raw)})
+		}
+	}
+	perm := r.Perm(len(docs))
+	np := 0
+	for _, di := range perm {
+		d := docs[di]
+		if np >= e.pick(40, 300) {
+			break
+		}
+		if len(d.raw) > 5000 || len(d.raw) < 300 {
+			continue
+		}
+		np++
+		w := strings.Fields(string(d.raw))
+		qs = append(qs, vBase{"rev:0:" + d.key, strings.Join(w, " ")})
+		for v := 1; v <= 2; v++ {
+			x := append([]string{}, w...)
+			for k := 0; k < v; k++ {
+				x[len(x)/4+r.Intn(len(x)/2)] = []string{"zqrevision", "software", "banana"}[r.Intn(3)]
+			}
+			qs = append(qs, vBase{fmt.Sprintf("rev:%d:%s", v, d.key), strings.Join(x, " ")})
+		}
+	}
+	return qs
+}
+
 func TestVerifC04(t *testing.T) {
 	e := vStart(t, "C04")
 	defer e.finish()
@@ -313,8 +370,13 @@ func TestVerifC04(t *testing.T) {
 	c := vBuildConfig(t, cfg, thr, e.seed)
 	// the query list must not depend on the configuration: take the vocabulary
 	// from a reference classifier built in sorted order
-	vocab := vVocab(vBuild(thr, docs))
+	refc := vBuild(thr, docs)
+	vocab := vVocab(refc)
 	qs := vC04Queries(e, docs, vocab)
+	qs = append(qs, vHistoryQueries(e, docs, func(b []byte) string {
+		w, _, _ := vRawTokens(b)
+		return strings.Join(w, " ")
+	})...)
 	e.event(map[string]interface{}{"ev": "config", "shard": e.shard, "config": cfg.name, "queries": len(qs), "docs": len(c.docs), "dict": len(c.dict.words)})
 
 	call := func(cs *vCase, in []byte, how int) (Results, bool) {
@@ -346,8 +408,24 @@ func TestVerifC04(t *testing.T) {
 		return res, true
 	}
 
-	for idx, q := range qs {
-		idx, q := idx, q
+	// the answer must not depend on what the classifier was asked before: the
+	// processes walk the same list forwards, backwards, or in a shuffled order (the
+	// case index - which the judge groups by - stays that of the list)
+	order := make([]int, len(qs))
+	for i := range order {
+		order[i] = i
+	}
+	switch e.shard % 3 {
+	case 1:
+		for i, j := 0, len(order)-1; i < j; i, j = i+1, j-1 {
+			order[i], order[j] = order[j], order[i]
+		}
+	case 2:
+		rand.New(rand.NewSource(e.seed*7919+int64(e.shard))).Shuffle(len(order), func(i, j int) { order[i], order[j] = order[j], order[i] })
+	}
+	e.event(map[string]interface{}{"ev": "history", "shard": e.shard, "order": []string{"forwards", "backwards", "shuffled"}[e.shard%3]})
+	for _, idx := range order {
+		idx, q := idx, qs[idx]
 		e.run(idx, "query:"+strings.SplitN(q.name, ":", 2)[0], map[string]interface{}{"name": q.name, "config": cfg.name}, func(cs *vCase) {
 			r := cs.rng
 			in := []byte(q.text)
